@@ -355,6 +355,21 @@ def World.request (g : Cfg) (w : World) (c : Nat) (src : HdrSrc) (hasData : Bool
             let hs3 := addContentType hasData hs2
             .ok (writeBack g w1 src hs0 hs3, hs3)
 
+/-- what happens after the request was handed to the opener -/
+inductive Outcome where
+  | answered                 -- an answer came and was processed (or `raw_response=True`)
+  | openerRaised             -- network error, HTTP error status, timeout, …
+  | processingRaised         -- 200, but the body is no JSON / no UTF-8, or a response adapter rejects it
+  deriving DecidableEq, Repr
+
+/-- a request together with its outcome: the request was sent in each case, nothing it did is undone —
+in particular the number it took stays taken; the flag says whether the caller sees an exception -/
+def World.requestOutcome (g : Cfg) (w : World) (c : Nat) (src : HdrSrc) (hasData : Bool) (o : Outcome) :
+    Except Err (World × Headers × Bool) :=
+  match w.request g c src hasData with
+  | .ok (w', hs) => .ok (w', hs, o != .answered)
+  | .error e => .error e
+
 /-- requests of one thread in a `par` line: connection and caller headers -/
 abbrev ParReq := Nat × Headers
 
